@@ -6,6 +6,7 @@ def _mk(name, variants, tags=(), files=None, depth=2, js=(1, 3), fresh_depth=1, 
     """Two scenarios per template: exploration from the fresh tree and from a fully built tree."""
     files = dict(files or {})
     out = []
+    kw.setdefault("ks", (1, 0))
     ops = standard_ops(variants, files, js=js, **kw)
     build_idx = next(i for i, o in enumerate(ops) if o["op"] == "ninja")
     out.append(scenario(name + "/fresh", "template", variants, files=files, ops=ops, init=[], depth=fresh_depth,
@@ -156,5 +157,13 @@ def templates(tier="quick"):
                        Stmt("al2", ex=["al1"], phony=True), Stmt("x", ex=["t"]), Stmt("y", ex=["al2"]),
                        Stmt("z", ex=["u"], oo=["al1"])], defaults=["y", "x", "z"])
     T += _mk("restat_aliases", [v], tags=["restat", "phony"], depth=d, touch=True, js=(1, 2))
+
+    # T21: file names with spaces; depfile in a directory of its own, named through $out
+    o = Stmt("obj dir/x y.o", ex=["src file.c"], hidden=["inc dir/h.h"], deps="gcc")
+    o.depfile_dir = "deps"
+    p = Stmt("obj dir/z.o", ex=["src file.c"], hidden=["inc dir/h.h"], depfile=True)
+    p.depfile_dir = "d2/sub"
+    v = Variant("v0", [o, p, Stmt("bin/app", ex=["obj dir/x y.o", "obj dir/z.o"])])
+    T += _mk("spaces_depfile_dir", [v], tags=["mkdirs", "spaces", "depfile"], depth=d, files={"inc dir/h.h": "h\n"})
 
     return T
